@@ -359,6 +359,14 @@ def hypothesis_unit(check, stats: Stats, *, strategy, examples, seed, label="hyp
         test()
     except _Violation:
         stats.violations.append(dict(case=last["case"], message=last["message"], unit=label))
+    except BaseException as exc:  # noqa
+        # Hypothesis re-runs a failing case; an oracle that measures process-wide high-water marks (peak resident memory)
+        # fails on the first run only.  The violation was observed: it is reported, not turned into a harness error.
+        if "Flaky" in type(exc).__name__ and last.get("case") is not None:
+            stats.violations.append(dict(case=last["case"], message=last["message"] + "  [seen on the first evaluation only]",
+                                         unit=label))
+        else:
+            raise
     stats.units.append(dict(unit=label, kind="hypothesis", seed=seed,
                             max_examples=examples, wall_s=round(time.time() - t0, 2)))
 
